@@ -452,7 +452,31 @@ def stack_capacity(ctx, fn, t, F):
         if any(e[0] == "return-with-pending-push" for e in res["errors"]):
             leaky.append(p)
     found["functions leaving pushes on a borrowed game"] = leaky
-    return "CAP", ok and not leaky, found
+    # one-way pushes on a game the function owns (the PV walk on its clone) grow that clone's stack too: such a push inside a loop
+    # needs a loop with a bounded trip count (a `for` over a numeric range bounded by the iteration depth), never `loop`/`while`
+    unbounded = []
+    for p in sorted(mir.reachable_fns(g, "search::get_best_move_until_stop") | {"search::get_best_move_until_stop"}):
+        if p not in F.fns or not p.startswith("search::") or not F.fn(p).get("hir"):
+            continue
+        f2 = F.fn(p)
+        sym2 = hir.Sym(hir.Env(f2["hir"], F), F)
+        for c, anc in hir.calls(f2["hir"]["body"], "Game::push"):
+            if (hir.callee_of(c) or "").endswith("push_history"):
+                continue
+            loops = [x for x in anc if x.get("k") == "Loop"]
+            if not loops:
+                continue
+            inner = loops[-1]
+            pops = [y for y, _ in hir.walk(inner) if y.get("k") == "MethodCall" and hir.callee_of(y) == "chess::Game::pop"]
+            if pops:
+                continue        # played and taken back inside the loop: the typestate rule pairs them
+            gl = hir.guards_of(c, f2["hir"]["body"], sym2) or []
+            its = [hir.fmt(hir.resolve_consts(x[1][2][0], F), 80) for x in gl if x[0] == "arm" and x[1][0] == "call" and str(x[1][1]).endswith("IntoIterator::into_iter")]
+            bounded = bool(its) and "ForLoop" in str(inner.get("src")) and its[-1].startswith("ops::Range") and "RangeFrom" not in its[-1]
+            if not bounded:
+                unbounded.append((p, hir.line(c), its[-1] if its else str(inner.get("src"))))
+    found["one-way pushes in loops without a bounded trip count"] = unbounded
+    return "CAP", ok and not leaky and not unbounded, found
 
 
 def safe_panics(ctx, F):
